@@ -113,6 +113,9 @@ def h_records(eng, nlines, kinds, models, drop, first=None):
     noend = [ln for ln in body if ln not in ("END",)]
     if models in (True, "two-models"):
         lines = ["MODEL        1"] + noend + ["ENDMDL"] + MODEL2 + ["END"]
+    elif models == "two-models-unpadded-labels":
+        # "MODEL 1" written free-format (one blank), as converters and hand-edited files do
+        lines = ["MODEL 1"] + noend + ["ENDMDL"] + ["MODEL 2"] + MODEL2[1:] + ["END"]
     elif models in ("two-models-from-0", "two-models-same-number", "two-models-from-5"):
         # the serial written on a MODEL record is a label: ensembles numbered from 0, sub-ensembles, concatenated files
         first, second = {"two-models-from-0": (0, 1), "two-models-same-number": (1, 1), "two-models-from-5": (5, 6)}[models]
@@ -301,7 +304,7 @@ def obligations(tier):
 
 
 def _model_label_obligations(tier):
-    return [Obligation(f"records-n{n}-{m}-drop{int(d)}", h_records, dict(nlines=n, kinds=QUICK_KINDS, models=m, drop=d), group="records", time_cap=1500, max_paths=100000) for n in ((1,) if tier == "quick" else (1, 2)) for m in ("two-models-from-0", "two-models-same-number", "two-models-from-5") for d in (False, True)]
+    return [Obligation(f"records-n{n}-{m}-drop{int(d)}", h_records, dict(nlines=n, kinds=QUICK_KINDS, models=m, drop=d), group="records", time_cap=1500, max_paths=100000) for n in ((1,) if tier == "quick" else (1, 2)) for m in ("two-models-from-0", "two-models-same-number", "two-models-from-5", "two-models-unpadded-labels") for d in (False, True)]
 
 
 def _drop_name_obligations():
@@ -337,7 +340,7 @@ META = dict(
 )
 
 MANIFEST = dict(
-    text="For C07: the real pdb.read_pdb + main.drop_water + Biomolecule.__init__ on every sequence (up to the bound) of 27 record kinds (incl. a damaged coordinate line) placed between a fixed prefix and suffix, with/without a second model and --drop-water, against an independent column-slicing reader (every ATOM/HETATM of model 1 present once, first alternate location, nothing from later models, waters removed iff requested, residues not merged); and the real ATOM/HETATM line parsers + read loop on a column-formatted line whose fields are all symbolic (layout strings) against the PDB column spec; the real drop_water on a record whose residue name is 1-3 symbolic characters (dropped iff the name is HOH or WAT).",
+    text="For C07: the real pdb.read_pdb + main.drop_water + Biomolecule.__init__ on every sequence (up to the bound) of 27 record kinds (incl. a damaged coordinate line) placed between a fixed prefix and suffix, with/without a second model and --drop-water, against an independent column-slicing reader (every ATOM/HETATM of model 1 present once, first alternate location, nothing from later models, waters removed iff requested, residues not merged); and the real ATOM/HETATM line parsers + read loop on a column-formatted line whose fields are all symbolic (layout strings) against the PDB column spec; the real drop_water on a record whose residue name is 1-3 symbolic characters (dropped iff the name is HOH or WAT). Round 4: MODEL records labelled 0/1, 1/1, 5/6 (the serial is a label), a blank-chain water record among the kinds.",
     note="Trusted: z3, symx layout strings. Record-kind sequences are bounded (2-4 symbolic lines); the file text for a given sequence is concrete. MODEL/ENDMDL bracketing and adjacent alternate-location pairs are assumed (documented PDB format). Exceptions on malformed sequences are tolerated as loud failures.",
     technique="symbolic execution of real code over record-kind selectors and layout strings (symx) + SMT verdict per path",
     design="DESIGN.md section 3 C07",
